@@ -20,12 +20,12 @@ def isWild (r : Nat) : Bool := r = 42 || r = 63           -- * ?
 def isEsc (r : Nat) : Bool := r = 92                      -- backslash
 def Cls.isAlnum (k : Cls) (r : Nat) : Bool := r = 95 || k.isLetter r || k.isDigit r
 
-def symbolOf (r : Nat) : Option TT :=
-  if r = 40 then some .lparen else if r = 41 then some .rparen else if r = 91 then some .lsquare
-  else if r = 93 then some .rsquare else if r = 123 then some .lcurly else if r = 125 then some .rcurly
-  else if r = 58 then some .colon else if r = 43 then some .plus else if r = 61 then some .equal
-  else if r = 62 then some .greater else if r = 126 then some .tilde else if r = 94 then some .carrot
-  else if r = 60 then some .less else none
+/-- lex.symbols (the map from rune to token type) -/
+def symbolTable : List (Nat × TT) :=
+  [(40, .lparen), (41, .rparen), (91, .lsquare), (93, .rsquare), (123, .lcurly), (125, .rcurly), (58, .colon),
+   (43, .plus), (61, .equal), (62, .greater), (126, .tilde), (94, .carrot), (60, .less)]
+
+def symbolOf (r : Nat) : Option TT := symbolTable.lookup r
 
 /-- lexWord: consume word cells; an escape swallows the following cell (if any). Returns (consumed, rest). -/
 def lexWord (k : Cls) : List Cell → List Cell × List Cell
